@@ -227,6 +227,9 @@ def bounded(K):
                         ok = ok and np.allclose(x.w(), 2 * np.pi * np.fft.fftfreq(N) * gv.fs, rtol=1e-12) and np.allclose(x.w(True), np.fft.fftshift(2 * np.pi * np.fft.fftfreq(N) * gv.fs), rtol=1e-12)
                         tot = s + (nz if noise else 0)
                         ok = ok and np.allclose(x.power(), np.mean(np.abs(tot) ** 2, axis=-1), rtol=1e-12)
+                        # any truthy shift flag (numpy bool from a comparison, 1) behaves like True
+                        for flag in (np.bool_(True), 1):
+                            ok = ok and np.array_equal(x('w', flag).signal, x('w', True).signal) and np.array_equal(x('t', flag).signal, x('t', True).signal)
                         if not ok:
                             bad.append({'cls': cls.__name__, 'shape': shape, 'noise': noise, 'gv': (sps, R)})
         gv.clean()
